@@ -5,6 +5,7 @@ package main
 import (
 	"fmt"
 	"go/ast"
+	"go/token"
 	"go/types"
 	"sort"
 	"strings"
@@ -481,20 +482,37 @@ func ruleOpBuilders(c *Ctx) {
 			bad = fmt.Sprintf("%d AFTOperation literals", len(lits))
 		} else {
 			f := compositeFields(lits[0])
+			// fields completed after the literal: op.Entry = …  (the common fields may come from a shared helper)
+			ast.Inspect(fi.Decl.Body, func(n ast.Node) bool {
+				if as, ok := n.(*ast.AssignStmt); ok && len(as.Lhs) == 1 && len(as.Rhs) == 1 && as.Tok == token.ASSIGN {
+					if o, path := selectorPath(info, as.Lhs[0]); o != nil && len(path) == 1 && isNamed(o.Type(), spbPath, "AFTOperation") {
+						if _, dup := f[path[0]]; dup {
+							f[path[0]] = nil // set twice: not decided
+						} else {
+							f[path[0]] = as.Rhs[0]
+						}
+					}
+				}
+				return true
+			})
 			// Id: id.Load()
 			idok := false
-			if call, ok := ast.Unparen(f["Id"]).(*ast.CallExpr); ok {
-				if se, ok := ast.Unparen(call.Fun).(*ast.SelectorExpr); ok && se.Sel.Name == "Load" && objOfIdent(info, se.X) == ps[2] {
-					idok = true
+			if f["Id"] != nil {
+				if call, ok := ast.Unparen(f["Id"]).(*ast.CallExpr); ok {
+					if se, ok := ast.Unparen(call.Fun).(*ast.SelectorExpr); ok && se.Sel.Name == "Load" && aliasRootObj(info, fi.Decl, se.X) == ps[2] {
+						idok = true
+					}
 				}
 			}
 			switch {
 			case !idok:
 				bad = "Id is not id.Load()"
-			case objOfIdent(info, f["NetworkInstance"]) != ps[1]:
+			case f["NetworkInstance"] == nil || aliasRootObj(info, fi.Decl, f["NetworkInstance"]) != ps[1]:
 				bad = "NetworkInstance is not the ni parameter"
-			case objOfIdent(info, f["Op"]) != ps[0]:
+			case f["Op"] == nil || aliasRootObj(info, fi.Decl, f["Op"]) != ps[0]:
 				bad = "Op is not the method parameter"
+			case f["Entry"] == nil:
+				bad = "Entry is not set exactly once"
 			default:
 				el, ok := unAddr(f["Entry"]).(*ast.CompositeLit)
 				if !ok {
